@@ -571,10 +571,16 @@ func runC08(p params) error {
 					in.Evs = bad
 					c08AddCase(out, "bad-contents", in)
 				}
-				// a foreign event inserted before position i
-				f := alpha[r.IntN(len(alpha))]
-				in.Evs = append(append(append([]c08Ev{}, fl[:i]...), f), fl[i:]...)
-				c08AddCase(out, "insert", in)
+				// every event of the alphabet inserted before position i (position 0 is covered by the
+				// enumeration from the initial state)
+				_ = r
+				for _, f := range alpha {
+					if i == 0 && p.tier != "thorough" {
+						break
+					}
+					in.Evs = append(append(append([]c08Ev{}, fl[:i]...), f), fl[i:]...)
+					c08AddCase(out, "insert", in)
+				}
 			}
 			// warning-alert tolerance: 16 tolerated, 17 not; the count spans the CCS
 			for _, n := range []int{16, 17} {
